@@ -28,3 +28,118 @@ package sugardb
 //@   requires hasdb(ctx)
 //@   ensures {C04} deadline: result == (livekey(server, dbof(ctx), key, $now) ? server.store[dbof(ctx)][key].ExpireAt : zerotime)
 //@   modifies nothing
+
+// Cluster-only collaborators (hashicorp/raft, memberlist) are outside the proof. The keyspace contracts below are
+// stated for standalone mode; the cluster branches only hand the operation to these external functions.
+//@ spec standalone(server *SugarDB) bool = !server.config.BootstrapCluster && server.config.JoinAddr == ""
+
+//@ func (*SugarDB).isInCluster noalloc props C07
+//@   ensures result == !standalone(server)
+//@   modifies nothing
+
+//@ func (*SugarDB).raftApplyDeleteKey trusted props C07
+//@   modifies *
+
+//@ func (*SugarDB).raftApplyCommand trusted props C07
+//@   modifies *
+
+// ---- databases ---------------------------------------------------------------------------------
+
+// dbwf: every database that exists has its volatile-key index and both eviction caches.
+//@ spec dbwf(server *SugarDB, d int) bool = server.store[d] != nil ==> (has(server.keysWithExpiry.keys, d) && server.lfuCache.cache[d] != nil && server.lruCache.cache[d] != nil && server.lfuCache.cache[d].Mutex != nil && server.lruCache.cache[d].Mutex != nil)
+
+//@ func (*SugarDB).createDatabase props C20,C05
+//@   requires server.store != nil && server.keysWithExpiry.keys != nil && server.lfuCache.cache != nil && server.lruCache.cache != nil
+//@   requires server.lfuCache.mutex != nil && server.lruCache.mutex != nil && server.lfuCache.mutex != server.lruCache.mutex
+//@   requires {C05} holds(server.storeLock) && unlocked(server.keysWithExpiry.rwMutex) && unlocked(server.lfuCache.mutex) && unlocked(server.lruCache.mutex)
+//@   ensures created: server.store[database] != nil && fresh(server.store[database]) && len(server.store[database]) == 0
+//@   ensures wf1: has(server.keysWithExpiry.keys, database)
+//@   ensures wf2: server.lfuCache.cache[database] != nil && server.lruCache.cache[database] != nil
+//@   ensures wf3: server.lfuCache.cache[database].Mutex != nil && server.lruCache.cache[database].Mutex != nil
+//@   ensures {C20} others: forall d int :: d != database ==> server.store[d] == old(server.store[d]) && server.keysWithExpiry.keys[d] == old(server.keysWithExpiry.keys[d]) && server.lfuCache.cache[d] == old(server.lfuCache.cache[d]) && server.lruCache.cache[d] == old(server.lruCache.cache[d])
+//@   ensures {C20} dbs: forall d int :: has(server.store, d) <==> (old(has(server.store, d)) || d == database)
+//@   ensures {C20} idx: forall d int :: d != database ==> (has(server.keysWithExpiry.keys, d) <==> old(has(server.keysWithExpiry.keys, d)))
+//@   modifies server.store[*], server.keysWithExpiry.keys[*], server.lfuCache.cache[*], server.lruCache.cache[*]
+
+//@ type SugarDB
+//@   invariant maps: this.store != nil && this.keysWithExpiry.keys != nil && this.lfuCache.cache != nil && this.lruCache.cache != nil
+//@   invariant locks: this.storeLock != nil && this.lfuCache.mutex != nil && this.lruCache.mutex != nil && this.lfuCache.mutex != this.lruCache.mutex && this.connInfo.mut != nil && this.storeLock != this.lfuCache.mutex && this.storeLock != this.lruCache.mutex && this.connInfo.mut != this.storeLock && this.connInfo.mut != this.lfuCache.mutex && this.connInfo.mut != this.lruCache.mutex
+//@   invariant dbs: forall d int :: dbwf(this, d)
+
+// cachewf: the eviction caches of database d satisfy their data-structure invariants. Stated per database: that the
+// caches of different databases share no entry, backing array or key map is an ownership fact outside these contracts.
+//@ spec cachewf(server *SugarDB, d int) bool = (server.lfuCache.cache[d] != nil ==> inv(server.lfuCache.cache[d], all)) && (server.lruCache.cache[d] != nil ==> inv(server.lruCache.cache[d], all)) && (server.lfuCache.cache[d] != nil && server.lruCache.cache[d] != nil ==> server.lfuCache.cache[d].keys != server.lruCache.cache[d].keys)
+
+// ---- expiry ------------------------------------------------------------------------------------
+
+//@ func (*SugarDB).setExpiry props C04,C20
+//@   requires hasdb(ctx)
+//@   requires present: has(server.store[dbof(ctx)], key)
+//@   preserves maps, locks, dbs
+//@   ensures {C04} deadline: server.store[dbof(ctx)][key].ExpireAt == expireAt && server.store[dbof(ctx)][key].Value == old(server.store[dbof(ctx)][key].Value)
+//@   ensures {C20} otherkeys: forall k string :: k != key ==> (has(server.store[dbof(ctx)], k) <==> old(has(server.store[dbof(ctx)], k))) && server.store[dbof(ctx)][k] == old(server.store[dbof(ctx)][k])
+//@   ensures {C20} samekeys: has(server.store[dbof(ctx)], key)
+//@   ensures {C08} indexed: exists i int :: 0 <= i && i < len(server.keysWithExpiry.keys[dbof(ctx)]) && server.keysWithExpiry.keys[dbof(ctx)][i] == key
+//@   ensures {C19} mem: server.memUsed == old(server.memUsed)
+//@   modifies server.store[dbof(ctx)][*], server.keysWithExpiry.keys[*], server.keysWithExpiry.keys[dbof(ctx)][*]
+
+// entrymem: what the accounting charges for one stored entry (KeyData.GetMem + key header + key bytes).
+//@ spec entrymem(e internal.KeyData, k string) int64 = 24 + valmem(e.Value) + 16 + len(k)
+
+//@ func (*SugarDB).deleteKey props C04,C08,C19,C20,C05
+//@   requires hasdb(ctx)
+//@   requires {C05} holds(server.storeLock) && unlocked(server.keysWithExpiry.rwMutex)
+//@   requires dbexists: server.store[dbof(ctx)] != nil
+//@   requires cachewf(server, dbof(ctx))
+//@   preserves maps, locks, dbs
+//@   ensures {C08} caches: cachewf(server, dbof(ctx))
+//@   ensures {C04,C08} removed: result == nil ==> !has(server.store[dbof(ctx)], key)
+//@   ensures {C20} otherkeys: forall k string :: k != key ==> (has(server.store[dbof(ctx)], k) <==> old(has(server.store[dbof(ctx)], k))) && server.store[dbof(ctx)][k] == old(server.store[dbof(ctx)][k])
+//@   ensures {C08} unindexed: result == nil && old(has(server.store[dbof(ctx)], key)) ==> !(exists i int :: 0 <= i && i < len(server.keysWithExpiry.keys[dbof(ctx)]) && server.keysWithExpiry.keys[dbof(ctx)][i] == key)
+//@   ensures {C19} accounting: result == nil ==> server.memUsed == old(server.memUsed) - (old(has(server.store[dbof(ctx)], key)) ? entrymem(old(server.store[dbof(ctx)][key]), key) : 0)
+//@   ensures {C19} failed: result != nil ==> server.memUsed == old(server.memUsed) && (forall k string :: (has(server.store[dbof(ctx)], k) <==> old(has(server.store[dbof(ctx)], k)))) && server.store[dbof(ctx)][key] == old(server.store[dbof(ctx)][key])
+//@   ensures {C05} samelocks: sameLocks()
+//@   ensures idxarr: samearr(server.keysWithExpiry.keys[dbof(ctx)], old(server.keysWithExpiry.keys[dbof(ctx)]))
+//@   modifies server.store[dbof(ctx)][*], server.memUsed, server.keysWithExpiry.keys[*], server.keysWithExpiry.keys[dbof(ctx)][*], heap:F_eviction_CacheLFU_entries, heap:F_eviction_CacheLRU_entries, heap:E_Peviction_EntryLFU, heap:E_Peviction_EntryLRU, heap:Mdom_string_bool, heap:Mval_string_bool, heap:Mcard_string_bool, heap:F_eviction_EntryLFU_index, heap:F_eviction_EntryLRU_index
+
+// ---- writes ------------------------------------------------------------------------------------
+
+//@ spec memfull(server *SugarDB) bool = server.config.MaxMemory != 0 && uint64(server.memUsed) >= server.config.MaxMemory
+
+//@ func (*SugarDB).setValues props C01,C04,C08,C19,C20,C05
+//@   requires hasdb(ctx) && standalone(server) && server.snapshotEngine != nil
+//@   preserves maps, locks, dbs
+//@   ensures {C08} refused: old(memfull(server)) && server.config.EvictionPolicy == "noeviction" ==> result != nil
+//@   ensures {C08,C01} unchanged: result != nil && old(memfull(server)) && server.config.EvictionPolicy == "noeviction" ==> (forall k string :: (has(server.store[dbof(ctx)], k) <==> old(has(server.store[dbof(ctx)], k))) && server.store[dbof(ctx)][k] == old(server.store[dbof(ctx)][k])) && server.memUsed == old(server.memUsed)
+//@   ensures {C01} written: result == nil ==> (forall k string :: has(entries, k) ==> has(server.store[dbof(ctx)], k) && server.store[dbof(ctx)][k].Value == entries[k])
+//@   ensures {C04} deadline: result == nil ==> (forall k string :: has(entries, k) ==> server.store[dbof(ctx)][k].ExpireAt == (old(livekey(server, dbof(ctx), k, $now)) ? old(server.store[dbof(ctx)][k].ExpireAt) : zerotime))
+//@   ensures {C01,C20} otherkeys: forall k string :: !has(entries, k) ==> (has(server.store[dbof(ctx)], k) <==> old(has(server.store[dbof(ctx)], k))) && server.store[dbof(ctx)][k] == old(server.store[dbof(ctx)][k])
+//@   ensures {C20} otherdbs: forall d int :: d != dbof(ctx) ==> server.store[d] == old(server.store[d])
+//@   ensures {C20} dbexists: result == nil ==> server.store[dbof(ctx)] != nil
+//@   modifies server.store[*], server.store[dbof(ctx)][*], server.memUsed, server.keysWithExpiry.keys[*], server.lfuCache.cache[*], server.lruCache.cache[*], heap:$atomic
+//@   loop 0
+//@     invariant server.store[database] != nil && inv(server, maps) && inv(server, locks) && inv(server, dbs) && holds(server.storeLock)
+//@     invariant forall k string :: seen(k) ==> has(server.store[database], k) && server.store[database][k].Value == entries[k]
+//@     invariant forall k string :: seen(k) ==> server.store[database][k].ExpireAt == (old(livekey(server, database, k, $now)) ? old(server.store[database][k].ExpireAt) : zerotime)
+//@     invariant forall k string :: !seen(k) ==> (has(server.store[database], k) <==> old(has(server.store[database], k))) && server.store[database][k] == old(server.store[database][k])
+
+//@ func (*SugarDB).getValues props C01,C04,C13,C20,C05
+//@   requires hasdb(ctx) && standalone(server)
+//@   requires cachewf(server, dbof(ctx))
+//@   assumes own-keys: disjointarr(keys, server.keysWithExpiry.keys[dbof(ctx)])
+//@   preserves maps, locks, dbs
+//@   ensures isfresh: fresh(result)
+//@   ensures domain: forall k string :: has(result, k) <==> (exists i int :: 0 <= i && i < len(keys) && keys[i] == k)
+//@   ensures {C01,C04} values: forall k string :: has(result, k) ==> result[k] == (old(livekey(server, dbof(ctx), k, $now)) ? old(server.store[dbof(ctx)][k].Value) : nil)
+//@   ensures {C04,C13} onlyexpired: forall k string :: old(has(server.store[dbof(ctx)], k)) && !has(server.store[dbof(ctx)], k) ==> old(expired(server.store[dbof(ctx)][k], $now))
+//@   ensures {C13} kept: forall k string :: has(server.store[dbof(ctx)], k) ==> old(has(server.store[dbof(ctx)], k)) && server.store[dbof(ctx)][k] == old(server.store[dbof(ctx)][k])
+//@   ensures {C20} otherdbs: forall d int :: d != dbof(ctx) ==> server.store[d] == old(server.store[d])
+//@   ensures caches: cachewf(server, dbof(ctx))
+//@   modifies server.store[dbof(ctx)][*], server.memUsed, server.keysWithExpiry.keys[*], server.keysWithExpiry.keys[dbof(ctx)][*], heap:F_eviction_CacheLFU_entries, heap:F_eviction_CacheLRU_entries, heap:E_Peviction_EntryLFU, heap:E_Peviction_EntryLRU, heap:Mdom_string_bool, heap:Mval_string_bool, heap:Mcard_string_bool, heap:F_eviction_EntryLFU_index, heap:F_eviction_EntryLRU_index
+//@   loop 0
+//@     invariant -1 <= rangeindex && rangeindex < len(keys) && fresh(values) && holds(server.storeLock) && unlocked(server.keysWithExpiry.rwMutex) && standalone(server)
+//@     invariant inv(server, maps) && inv(server, locks) && inv(server, dbs) && cachewf(server, database) && server.store[database] == old(server.store[database]) && samearr(server.keysWithExpiry.keys[database], old(server.keysWithExpiry.keys[database]))
+//@     invariant forall k string :: has(values, k) <==> (exists i int :: 0 <= i && i <= rangeindex && keys[i] == k)
+//@     invariant forall k string :: has(values, k) ==> values[k] == (old(livekey(server, database, k, $now)) ? old(server.store[database][k].Value) : nil)
+//@     invariant forall k string :: old(has(server.store[database], k)) && !has(server.store[database], k) ==> old(expired(server.store[database][k], $now))
+//@     invariant forall k string :: has(server.store[database], k) ==> old(has(server.store[database], k)) && server.store[database][k] == old(server.store[database][k])
